@@ -27,6 +27,8 @@ pub enum Step {
     NewWriter,
     /// delete_all_documents
     DeleteAll,
+    /// drop writer and reader, then obtain the Index again through Index::open_or_create on the directory
+    OpenOrCreate,
     /// from here on the writer (and every later writer of the driver) merges eagerly: the policy proposes
     /// to merge all the segments it is shown as soon as there are two
     EagerOn,
@@ -266,6 +268,17 @@ impl Driver {
                 self.writer = None;
                 Ok(())
             }
+            Step::OpenOrCreate => {
+                self.writer = None;
+                self.reader = None;
+                match Index::open_or_create(self.sim.clone(), crate::wl::schema()) {
+                    Ok(i) => {
+                        self.index = Some(i);
+                        Ok(())
+                    }
+                    Err(e) => Err(format!("{e:?}")),
+                }
+            }
             Step::DeleteAll => match self.writer.as_mut() {
                 Some(w) => w.delete_all_documents().map(|_| ()).map_err(|e| format!("{e:?}")),
                 None => Err("no writer".into()),
@@ -351,7 +364,7 @@ impl Driver {
                 self.model.history.push(self.model.committed.clone());
                 self.attempted = None;
             }
-            (Step::Rollback, true) | (Step::NewWriter, true) | (Step::DropWriter, true) => {
+            (Step::Rollback, true) | (Step::NewWriter, true) | (Step::DropWriter, true) | (Step::OpenOrCreate, _) => {
                 self.model.working = self.model.committed.clone();
             }
             _ => {}
@@ -373,6 +386,7 @@ pub fn workloads() -> Vec<(&'static str, Vec<Step>)> {
         ("W5_reload", vec![Add(1), Commit, Reload, Add(2), Commit, Reload, Merge, Reload]),
         ("W6_rollback_restart", vec![Add(1), Commit, Add(2), Rollback, Add(3), Commit, DropWriter, NewWriter, Add(4), DelId(3), Commit]),
         ("W7_deletes_then_gc", vec![Add(1), Add(2), Add(3), Commit, DelId(1), Commit, DelId(2), Commit, Gc, Add(4), Commit]),
+        ("W8_open_or_create", vec![Add(1), Add(2), Commit, OpenOrCreate, NewWriter, Add(3), Commit, OpenOrCreate, Reload]),
     ]
 }
 
